@@ -292,6 +292,25 @@ pub fn check_shared_parts(s: &str) -> Result<bool, String> {
     if f.to_string() != s || &*f != s {
         return Err(format!("filter {:?} converts back to {:?} / derefs to {:?}", s, f.to_string(), &*f));
     }
+    // a value that took over this text through Clone::clone / clone_from (over a destination that held another filter,
+    // shared or not, and element-wise through a Vec) is this filter in every respect
+    {
+        let others = ["$share/other/x/#", "plain/+/x", "$share/\u{e9}/y", "/"];
+        for (k, o) in others.iter().enumerate() {
+            let mut dst = TopicFilter::try_from(o.to_string()).map_err(|e| format!("valid filter {:?} refused: {:?}", o, e))?;
+            dst.clone_from(&f);
+            let mut v: Vec<TopicFilter> = vec![TopicFilter::try_from(o.to_string()).map_err(|e| format!("{:?}", e))?; 2];
+            v.clone_from(&vec![f.clone(), f.clone()]);
+            for (x, how) in [(&dst, "clone_from over another filter"), (&v[1], "Vec::clone_from"), (&f.clone(), "clone")] {
+                if **x != *s || x.to_string() != s || *x != f || x.is_shared() != f.is_shared() || x.shared_info() != f.shared_info() || x.shared_group_name() != f.shared_group_name() || x.shared_filter() != f.shared_filter() || hash_of(x) != hash_of(&f) || x.cmp(&f) != std::cmp::Ordering::Equal {
+                    return Err(format!("filter {:?} taken over by {} (destination held {:?}): text {:?}, share {:?}; the original reports {:?}", s, how, o, &**x, x.shared_info(), f.shared_info()));
+                }
+            }
+            if k == 1 && s.len() > 40 {
+                break;
+            }
+        }
+    }
     let is_sys = s.starts_with("$SYS/");
     if f.is_sys() != is_sys {
         return Err(format!("filter {:?}: is_sys() = {}", s, f.is_sys()));
